@@ -378,6 +378,18 @@ type LoopSpec struct {
 	Unroll   int
 }
 
+type Macro struct {
+	Name   string
+	Params []string
+	Body   *Expr
+}
+
+type UnfoldAt struct {
+	Anchor Anchor
+	Call   *Expr
+	Pos    string
+}
+
 type GhostVar struct {
 	Name string
 	Type string
@@ -411,6 +423,12 @@ type FuncSpec struct {
 	Releases  []*Expr
 	Holds     []*Expr // requires held(lock)
 	Raw       []string
+	Macros    []Macro
+	Unfolds   []UnfoldAt
+	// abstract (refinement-gap) clauses: assumed at call sites, not proved for the body
+	TrustedEnsures  []Clause
+	TrustedModifies []*Expr
+	TrustedWhy      string
 }
 
 type TypeSpec struct {
@@ -438,6 +456,7 @@ type Lemma struct {
 }
 
 type SpecFile struct {
+	Macros []Macro
 	Funcs  []*FuncSpec
 	Types  []*TypeSpec
 	Lemmas []*Lemma
@@ -445,6 +464,7 @@ type SpecFile struct {
 }
 
 type SpecDB struct {
+	Macros map[string][]Macro // per package path
 	Funcs  map[string]*FuncSpec // key: pkgpath + "::" + Key   (ext: "ext::" + fn.String())
 	Types  map[string]*TypeSpec // pkgpath::Name
 	Lemmas []*Lemma
@@ -807,6 +827,17 @@ func parseSpecFile(path, pkgPath string, ext bool) (*SpecFile, error) {
 		case "prelude":
 			sf.Prel = append(sf.Prel, splitProps(rest)...)
 			continue
+		case "define":
+			m, err := parseMacro(rest, pos)
+			if err != nil {
+				return nil, err
+			}
+			if cur != nil {
+				cur.Macros = append(cur.Macros, m)
+			} else {
+				sf.Macros = append(sf.Macros, m)
+			}
+			continue
 		}
 		if curT != nil {
 			if err := parseTypeClause(curT, ln, pos); err != nil {
@@ -823,6 +854,31 @@ func parseSpecFile(path, pkgPath string, ext bool) (*SpecFile, error) {
 		}
 	}
 	return sf, nil
+}
+
+// parseMacro parses  NAME(p1, p2) = expr
+func parseMacro(s, pos string) (Macro, error) {
+	i := strings.Index(s, "(")
+	j := matchParen(s, i)
+	if i < 0 || j < 0 {
+		return Macro{}, fmt.Errorf("%s: define needs NAME(params) = expr", pos)
+	}
+	m := Macro{Name: strings.TrimSpace(s[:i])}
+	for _, p := range strings.Split(s[i+1:j], ",") {
+		if p = strings.TrimSpace(p); p != "" {
+			m.Params = append(m.Params, p)
+		}
+	}
+	rest := strings.TrimSpace(s[j+1:])
+	if !strings.HasPrefix(rest, "=") {
+		return Macro{}, fmt.Errorf("%s: define needs '='", pos)
+	}
+	e, err := parseSpecExpr(rest[1:], pos)
+	if err != nil {
+		return Macro{}, err
+	}
+	m.Body = e
+	return m, nil
 }
 
 func splitWord(s string) (string, string) {
@@ -893,6 +949,27 @@ func parseFuncClause(f *FuncSpec, word, rest, pos string, ext bool) error {
 		}
 		f.Modifies = append(f.Modifies, es...)
 		f.HasMod = true
+	case "abstract":
+		// abstract ensures ... / abstract modifies ... / abstract gap NAME: reason
+		w2, r2 := splitWord(rest)
+		switch w2 {
+		case "ensures":
+			c, err := parseClause(r2, pos)
+			if err != nil {
+				return err
+			}
+			f.TrustedEnsures = append(f.TrustedEnsures, c)
+		case "modifies":
+			es, err := parseExprList(r2, pos)
+			if err != nil {
+				return err
+			}
+			f.TrustedModifies = append(f.TrustedModifies, es...)
+		case "gap":
+			f.TrustedWhy = r2
+		default:
+			return fmt.Errorf("%s: unknown abstract clause %q", pos, w2)
+		}
 	case "pure":
 		f.Pure = true
 	case "inline":
@@ -995,6 +1072,23 @@ func parseFuncClause(f *FuncSpec, word, rest, pos string, ext bool) error {
 		default:
 			return fmt.Errorf("%s: unknown ghost clause", pos)
 		}
+	case "unfold":
+		w2, r2 := splitWord(rest)
+		if w2 != "at" {
+			return fmt.Errorf("%s: expected 'unfold at <anchor>: f(args)'", pos)
+		}
+		a, r3, err := parseAnchor(r2, pos)
+		if err != nil {
+			return err
+		}
+		e, err := parseSpecExpr(r3, pos)
+		if err != nil {
+			return err
+		}
+		if e.Op != "call" {
+			return fmt.Errorf("%s: unfold needs a call f(args)", pos)
+		}
+		f.Unfolds = append(f.Unfolds, UnfoldAt{Anchor: a, Call: e, Pos: pos})
 	case "assert", "assume":
 		w2, r2 := splitWord(rest)
 		if w2 != "at" {
@@ -1021,7 +1115,7 @@ func parseFuncClause(f *FuncSpec, word, rest, pos string, ext bool) error {
 // loadSpecs reads all contract files: verif_contracts*.go under repo (package
 // path derived from the module path) and *.spec under extDir.
 func loadSpecs(repo, modPath, extDir string) (*SpecDB, error) {
-	db := &SpecDB{Funcs: map[string]*FuncSpec{}, Types: map[string]*TypeSpec{}}
+	db := &SpecDB{Funcs: map[string]*FuncSpec{}, Types: map[string]*TypeSpec{}, Macros: map[string][]Macro{}}
 	var files []string
 	filepath.Walk(repo, func(p string, info os.FileInfo, err error) error {
 		if err != nil {
@@ -1063,6 +1157,7 @@ func loadSpecs(repo, modPath, extDir string) (*SpecDB, error) {
 }
 
 func (db *SpecDB) add(sf *SpecFile, pkg string) {
+	db.Macros[pkg] = append(db.Macros[pkg], sf.Macros...)
 	for _, f := range sf.Funcs {
 		k := pkg + "::" + f.Key
 		if f.Ext {
